@@ -107,9 +107,16 @@ def missingOfJson (j : Json) : Except String Missing :=
   | .str k => pure (.factory k)
   | _ => throw s!"bad missing {j.compress}"
 
-def valSpecOfJson (j : Json) : Except String ValSpec := do
+def valSpecOfJson (j : Json) : Except String UVal := do
   if let .ok v := j.getObjVal? "lit" then return .lit (← valOfJson v)
   else return .path (← listOfJson stepOfJson (← j.getObjVal? "t"))
+
+def reOfJson (j : Json) : Except String (Option Re) :=
+  match j with
+  | .null => pure none
+  | _ => do
+    return some { at_ := ← j.getObjValAs? Nat "at", target2 := ← valOfJson (← j.getObjVal? "target2"),
+                  threads := (j.getObjValAs? Bool "threads").toOption.getD false }
 
 def flagsOfJson (j : Json) : Except String (List (String × List String)) :=
   listOfJson (pairOfJson strOfJson (listOfJson strOfJson)) j
@@ -122,6 +129,7 @@ structure Common where
   sref : Val
   steps : List Step
   hasScope : Bool      -- the heap has a cell standing for the scope frame
+  hasUreg : Bool := false   -- the case made user registrations
 
 def commonOfJson (j : Json) : Except String Common := do
   let classes ← classTableOfJson (← j.getObjVal? "classes")
@@ -134,21 +142,68 @@ def commonOfJson (j : Json) : Except String Common := do
     | .ok v => valOfJson v
     | .error _ => pure Val.none
   let steps ← stepsOfSpelling (← j.getObjVal? "spelling")
-  return { env := genEnv classes flags, heap, target, sroot := root == "S", sref, steps,
-           hasScope := sref != Val.none }
+  let regOf := fun (u : Json) (k : String) =>
+    (match u.getObjVal? k with
+     | .ok t => listOfJson (pairOfJson strOfJson strOfJson) t
+     | .error _ => pure [] : Except String (List (String × String)))
+  let ur : UReg ← (match j.getObjVal? "ureg" with
+    | .ok .null => pure {}
+    | .ok u => do pure { get := ← regOf u "get", assign := ← regOf u "assign", delete := ← regOf u "delete" }
+    | .error _ => pure {} : Except String UReg)
+  return { env := genEnv classes flags ur, heap, target, sroot := root == "S", sref, steps,
+           hasScope := sref != Val.none,
+           hasUreg := !(ur.get.isEmpty && ur.assign.isEmpty && ur.delete.isEmpty) }
 
 def resTag : ObsRes → String
   | .ok _ => "ok"
   | .err c (some i) .. => s!"{c}({i})"
   | .err c none .. => c
 
+/-- an observation with the cells created during the call renumbered canonically -/
+def canonObs (n : Nat) (o : Obs) : Obs := { o with heap := canon n o.heap }
+
+def canonRead (n : Nat) (hp : Heap) : ReadObs → ReadObs
+  | .ok nst => .ok (renameNest n (newOrder n hp []) nst)
+  | r => r
+
+/-- two overlapping evaluations of one spec object -/
+def runRe (c : Common) (uv : UVal) (kind : String) (re : Re) (implObs : Obs) : Except String Json := do
+  let fuel := 4 * argFuel c.heap + 64
+  let out := if re.threads then assignSeq c.env kind fuel re.target2 c.heap c.target c.steps uv
+    else assignRe c.env kind fuel re.at_ re.target2 c.heap c.target c.steps uv
+  let modelObs := observe c.env out
+  let ref := refAssignRe c.env fuel c.heap c.target c.steps uv kind re
+  if (match ref with | .unsupported => true | _ => false) ||
+      (match out.2 with | .error .unmodelled => true | _ => false) then
+    return Json.mkObj [("skip", true), ("why", "overlapping evaluations outside the modelled domain")]
+  let n := c.heap.length
+  -- on failure the garbage of the two evaluations is not an observation
+  let agree := modelObs.res == implObs.res && modelObs.calls == implObs.calls &&
+    modelObs.hidden == implObs.hidden && canon n modelObs.heap == canon n implObs.heap
+  let holds := checkC11Re c.env fuel c.heap c.target c.steps uv kind re implObs
+  let modelHolds := checkC11Re c.env fuel c.heap c.target c.steps uv kind re modelObs
+  let branch := (if re.threads then "threads:" else s!"reenter@{re.at_}:") ++
+    (match ref with | .ok _ (some k) => s!"ok calls={k}" | .ok _ none => "ok (other evaluation raised)"
+                    | .fail _ => "fail" | .unsupported => "unsupported") ++ "→" ++ resTag modelObs.res
+  return Json.mkObj [("agree", agree), ("holds", holds), ("model_holds", modelHolds),
+    ("wf", WF c.env), ("covered", false), ("model", obsToJson (canonObs n modelObs)),
+    ("why", if holds then "" else "an evaluation of the shared spec did not do what it does alone (each record must hold its own value)"),
+    ("ref", branch), ("branch", branch)]
+
 def run (j : Json) : Except String Json := do
   let c ← commonOfJson j
-  let vs ← valSpecOfJson (← j.getObjVal? "value")
+  let uv ← valSpecOfJson (← j.getObjVal? "value")
   let missing ← missingOfJson ((j.getObjVal? "missing").toOption.getD .null)
   let implJ ← j.getObjVal? "impl"
   let implObs0 ← obsOfJson implJ
+  let re ← reOfJson ((j.getObjVal? "reenter").toOption.getD .null)
+  if let some r := re then
+    match missing with
+    | .factory kind => return ← runRe c uv kind r implObs0
+    | .none => throw "reenter without a factory"
   let root := if c.sroot then c.sref else c.target
+  let fuel := argFuel c.heap
+  let n := c.heap.length
   -- chain mode: a later step of the same chain reads a path back
   let rd : Option (List Step) ← (match j.getObjVal? "readback" with
     | .ok .null => pure none
@@ -163,53 +218,60 @@ def run (j : Json) : Except String Json := do
   -- `Assign.__init__`: the path it keeps (first step of an S-rooted path re-spelled per the extracted table)
   let kept := initPath (genSFirst "Assign") c.sroot c.steps
   let (out, rdOut) := match rd with
-    | some rs => assignThenRead c.env c.sroot c.sref missing c.heap c.target kept vs rs
-    | none => (assign c.env c.sroot c.sref missing c.heap c.target kept vs, none)
+    | some rs => assignUThenRead c.env c.sroot c.sref missing fuel c.heap c.target kept uv rs
+    | none => (assignU c.env c.sroot c.sref missing fuel c.heap c.target kept uv, none)
   let modelObs := observe c.env out
   let modelRead := observeRead c.env rdOut
   -- the prescription reads an S-rooted path the way such a path is evaluated: a first step spelled
   -- `S.name` / `Path(S, name)` means the scope variable (`_s_first_magic`) — also as a destination
   let refSteps := readSteps c.sroot c.steps
-  let ref := refAssign c.env c.heap c.target root refSteps vs missing
+  let ref := refAssignU c.env fuel c.heap c.target root refSteps uv missing
   if ref == .unsupported || (match out.2 with | .error .unmodelled => true | _ => false) ||
       (match rdOut with | some (.error .unmodelled) => true | _ => false) then
     return Json.mkObj [("skip", true), ("why", "path outside the modelled domain (`**` / wildcard value)")]
   -- an S-rooted Assign that is the whole spec binds in a frame nothing can look into afterwards
   let unseen := c.hasScope && !frameSeen
-  let implObsA := if unseen then { implObs0 with heap := patchCell implObs0.heap c.sref modelObs.heap } else implObs0
-  let implObs := if unseen then
-      (match ref with
-       | .ok h' _ _ => { implObs0 with heap := patchCell implObs0.heap c.sref h' }
-       | _ => implObs0)
-    else implObs0
+  let unobs : List Nat := if unseen then (match c.sref with | .ref a => [a] | _ => []) else []
+  let maskObs := fun (o : Obs) => { o with heap := maskCells c.heap unobs o.heap }
+  let implObsA := implObs0
+  let implObs := implObs0
   let readAgree := match rd, implRead with
-    | some _, some r => modelObs.hidden || ReadObs.beq modelRead r   -- a hidden attribute: outside the cells
+    | some _, some r => modelObs.hidden ||
+        ReadObs.beq (canonRead n modelObs.heap modelRead) (canonRead n implObsA.heap r)   -- a hidden attribute: outside the cells
     | none, none => true
     | _, _ => false
   let readHolds := match rd, implRead with
-    | some rs, some r => checkRead c.env c.heap c.target root refSteps vs missing (readSteps c.sroot rs) r
+    | some rs, some r => checkReadU c.env fuel c.heap c.target root refSteps uv missing (readSteps c.sroot rs) implObs.heap r
     | none, none => true
     | _, _ => false
-  let agree := modelObs == implObsA && readAgree
-  let holds := checkC11 c.env c.heap c.target root refSteps vs missing implObs && readHolds && scopeKept
-  let modelHolds := checkC11 c.env c.heap c.target root refSteps vs missing modelObs &&
+  -- the garbage a failed call leaves (factory objects, rebuilt containers) is not an observation
+  let agree := canonObs n (maskObs modelObs) == canonObs n (maskObs implObsA) && readAgree
+  let holds := checkC11U c.env fuel c.heap c.target root refSteps uv missing implObs unobs && readHolds && scopeKept
+  let modelHolds := checkC11U c.env fuel c.heap c.target root refSteps uv missing modelObs &&
     (match rd with
-     | some rs => checkRead c.env c.heap c.target root refSteps vs missing (readSteps c.sroot rs) modelRead
+     | some rs => checkReadU c.env fuel c.heap c.target root refSteps uv missing (readSteps c.sroot rs) modelObs.heap modelRead
      | none => true)
   let star := hasStar c.steps
-  let cov := covered c.env c.heap c.target c.sroot c.steps vs missing
-  let covStar := star && WF c.env && classesOK c.env && noScope c.env && wfStar c.steps && valWf vs &&
-    !valUnsupported c.heap vs && (match missing with | .none => true | _ => out.1.calls == 0)
+  let (cov, covStar, lit) := match uv with
+    | .path s =>
+      (covered c.env c.heap c.target c.sroot c.steps (.path s) missing,
+       star && WF c.env && classesOK c.env && noScope c.env && wfStar c.steps && valWf (.path s) &&
+         !valUnsupported c.heap (.path s) && (match missing with | .none => true | _ => out.1.calls == 0), false)
+    | .lit v =>
+      (coveredLit c.env fuel c.heap c.target c.steps v missing,
+       star && WF c.env && classesOK c.env && noScope c.env && wfStar c.steps && tleafsWf c.env c.heap &&
+         (match missing with | .none => true | _ => out.1.calls == 0), out.1.heap.length > n && out.1.calls == 0 || rebuilds c.heap v)
   let rdTag := match rd with
     | none => ""
     | some _ => (match modelRead with
       | .notRun => "read-notrun:" | .ok _ => "read-ok:" | .err e => s!"read-{resTag e}:")
-  let branch := (if c.sroot then "S:" else "") ++ rdTag ++ (if star then "star:" else "") ++
+  let branch := (if c.sroot then "S:" else "") ++ (if c.hasUreg then "user-reg:" else "") ++ rdTag ++
+    (if star then "star:" else "") ++ (if lit then "rebuilt-literal:" else "") ++
     (if out.1.calls > 0 then s!"missing{out.1.calls}:" else "") ++ resTag modelObs.res ++
     (if cov then " [thm]" else if covStar then " [thm*]" else "")
   return Json.mkObj [("agree", agree), ("holds", holds), ("model_holds", modelHolds),
-    ("wf", WF c.env), ("covered", cov || covStar), ("model", obsToJson modelObs),
-    ("model_read", readObsToJson modelRead),
+    ("wf", WF c.env), ("covered", cov || covStar), ("model", obsToJson (canonObs n modelObs)),
+    ("model_read", readObsToJson (canonRead n modelObs.heap modelRead)),
     ("why", if !scopeKept then "the mapping handed to glom(scope=…) was changed"
             else if !readHolds then "the read-back step does not see what the plain-Python assignment leaves"
             else ""),
